@@ -7,13 +7,15 @@ ID = "C10"
 THEOREMS = [("FlatModel.Props.C09", t) for t in ("FC.C10.reserveItems_invisible", "FC.C10.reserveRegions_invisible",
                                                   "FC.C10.merge_fresh", "FC.C10.stack_reserve_invisible",
                                                   "FC.C10.stack_withCapacity_default", "FC.C02.frame_reserve", "FC.reach_inv")]
-LEAN_TARGETS = ["FlatModel.Generated.Covered", "FlatModel.Generated.CoveredOps"]
+THEOREMS += [("FlatModel.Props.UniverseOps", "FC.Universe." + t) for t in ("C10_every_composition", "C10_merge_every_composition", "C10_merged_empty", "C10_stack_every_composition", "huffman_not_lawfulMerge", "huffmanU8_not_lawfulMerge")]
+LEAN_TARGETS = ["FlatModel.Generated.Covered", "FlatModel.Generated.CoveredOps", "FlatModel.Generated.CoveredUniverseOps"]
 PROFILES = {"quick": ["checked"], "thorough": ["checked", "wrapping"], "search": ["checked"]}
 RULE = ("twin runs: the same pushes with and without interleaved reserve_items / reserve_regions / FlatStack::reserve / "
         "with_capacity calls (arbitrary, also wrong, announcements), indices and reads compared step by step; merge_regions / "
         "merge_capacity over 0..3 source regions with arbitrary histories (including the target's own ancestors), the merged "
         "region compared with a twin default under the same continuation; non-trivial when the announced items/regions are "
-        "non-empty; coded regions are merged only in C06/C07")
+        "non-empty; coded (dictionary / Huffman) compositions: merged regions start empty and accept and read back everything "
+        "their sources held, over two merge generations (a merged coded region is not a default one: no twin)")
 
 
 def twin_reserve(cat, rng, stack):
@@ -76,9 +78,13 @@ def merged(cat, rng, stack):
         b.s.nontrivial = True
     gens = 1 + rng.below(2)
     last = None
+    # what the sources held: a merged coded region answers differently for exactly these (dictionary / code hits)
+    pool = [v for s in sorted(set(srcs)) for v in b.h[s].vals]
     for g in range(gens):
         for _ in range(1 + rng.below(6)):
             v = b.value(last if b.collapse else None)
+            if pool and rng.below(2):
+                v = rng.pick(pool)
             last = v
             f = b.form_for(v)
             km, nm = b.push("m", v, f)
@@ -100,6 +106,39 @@ def merged(cat, rng, stack):
                 pass
             b.h["m"].name = "m2"
             return finish(b, rng, "m2")
+    return b.s
+
+
+def merged_coded(cat, rng, stack):
+    """coded compositions (dictionary / Huffman): a merged region is *not* a default one — it answers with codes — but it
+    starts empty and works: everything its sources held (the acceptance contract of C06/C07) is accepted and reads back,
+    over two merge generations"""
+    b = RB(ID, cat, rng, stack)
+    b.idx_cmp = "status"
+    srcs = []
+    for k in range(1 + rng.below(3)):
+        n = "s%d" % k
+        b.new(n)
+        for _ in range(1 + rng.below(8)):
+            v = b.value()
+            b.push(n, v, b.form_for(v))
+        srcs.append(n)
+    pool = [v for s in srcs for v in b.h[s].vals]
+    cur = "m"
+    b.merge(cur, srcs)
+    for g in range(2):
+        b.readall(cur, sig="merged-not-empty@" + b.entry)
+        for _ in range(2 + rng.below(8)):
+            v = rng.pick(pool)
+            k, _ = b.push(cur, v, b.form_for(v), sig="merged-refuses-source-value@" + b.entry)
+            b.read(cur, k, sig="merged-read@" + b.entry)
+        b.readall(cur, sig="merged-read@" + b.entry)
+        b.s.nontrivial = True
+        if g == 0:
+            # the next generation knows only what *its* sources held
+            pool = list(b.h[cur].vals) + list(b.h[srcs[0]].vals)
+            b.merge("m2", [cur] + srcs[:1])
+            cur = "m2"
     return b.s
 
 
@@ -138,10 +177,14 @@ def generate(seed, tier):
             out.append(twin_reserve(cat, rng.fork(), None))
             if not coded:
                 out.append(merged(cat, rng.fork(), None))
+            else:
+                out.append(merged_coded(cat, rng.fork(), None))
         for st in cat["stacks"]:
             for i in range(max(1, per // 3)):
                 out.append(twin_reserve(cat, rng.fork(), st))
                 out.append(withcap(cat, rng.fork(), st))
                 if not coded:
                     out.append(merged(cat, rng.fork(), st))
+                else:
+                    out.append(merged_coded(cat, rng.fork(), st))
     return out
